@@ -173,6 +173,8 @@ type LiquidWallet struct {
 	Sent       []*LiquidChainTx
 	Addresses  []string
 	SendErr    error
+	// OnSend is called for every transaction the wallet hands to the network.
+	OnSend func(tx *LiquidChainTx)
 }
 
 func NewLiquidWallet(seed string) *LiquidWallet {
@@ -251,10 +253,15 @@ func (w *LiquidWallet) SendRawTx(rawTx string) (string, error) {
 	if err != nil {
 		return "", err
 	}
+	ct := &LiquidChainTx{Tx: tx, Hex: rawTx, ID: tx.TxHash().String()}
 	w.mu.Lock()
-	defer w.mu.Unlock()
-	w.Sent = append(w.Sent, &LiquidChainTx{Tx: tx, Hex: rawTx, ID: tx.TxHash().String()})
-	return tx.TxHash().String(), nil
+	w.Sent = append(w.Sent, ct)
+	cb := w.OnSend
+	w.mu.Unlock()
+	if cb != nil {
+		cb(ct)
+	}
+	return ct.ID, nil
 }
 
 func (w *LiquidWallet) GetFee(txSize int64) (uint64, error) {
